@@ -27,7 +27,9 @@ AnyP         == [p |-> "any"]
 \* a float leaf also carries s64, the text of the float64 expansion (differs from s for a float32 such as 1.1): the
 \* as-implemented reading of alt.reflectValue
 LeafOf(tv)  == IF tv.g = "bool" THEN Leaf("bool", tv.s) ELSE IF tv.g = "string" THEN Leaf("str", tv.s)
-               ELSE IF tv.g = "float" THEN [p |-> "leaf", t |-> "num", s |-> tv.s, s64 |-> tv.s64] ELSE Leaf("num", tv.s)
+               ELSE IF tv.g = "float" THEN [p |-> "leaf", t |-> "num", s |-> tv.s, s64 |-> tv.s64]
+               \* sneg: a uint64 above MaxInt64 read as an int64 (as-implemented reading of alt.Decompose / pretty: simple data has int64 only)
+               ELSE IF "sneg" \in DOMAIN tv THEN [p |-> "leaf", t |-> "num", s |-> tv.s, sneg |-> tv.sneg] ELSE Leaf("num", tv.s)
 
 IsNilPtr(tv)  == tv.g \in {"ptr", "iface"} /\ tv.nil
 IsNilCont(tv) == tv.g \in {"slice", "map"} /\ tv.nil
@@ -99,7 +101,8 @@ Entries(fs, i, o, ctx, inh) ==
   ELSE IF flat /\ inner.g = "struct"
        THEN Entries(inner.f, 1, o, IF f.v.g = "ptr" THEN "embedded-ptr" ELSE "embedded", inh \/ (\E j \in (i + 1)..Len(fs) : fs[j].oe)) \o rest
   ELSE IF flat /\ IsNilPtr(f.v) THEN <<[ks |-> {}, v |-> AnyP, req |-> "open", d |-> Descr(f, ctx, rel)]>> \o rest   \* nothing stated
-  ELSE LET vp == IF o.tags /\ f.str /\ f.v.g \in {"bool", "int", "uint8", "float"} THEN Leaf("str", f.v.s)   \* ,string: quoted scalar
+  ELSE LET vp == IF o.tags /\ f.str /\ f.v.g \in {"bool", "int", "uint8", "float"}
+                 THEN (IF "sneg" \in DOMAIN f.v THEN [p |-> "leaf", t |-> "str", s |-> f.v.s, sneg |-> f.v.sneg] ELSE Leaf("str", f.v.s))   \* ,string: quoted scalar
                  ELSE IF o.tags /\ f.str /\ f.v.g = "string" THEN AnyP     \* encoding/json quotes the string once more; not stated for ojg
                  ELSE Pat(f.v, o)
        IN <<[ks |-> KeySet(f, o), v |-> vp, req |-> FieldReq(f, o), d |-> Descr(f, ctx, rel)]>> \o rest
@@ -170,6 +173,7 @@ Dev(pat, tr, d) ==
   \* re-read as that literal / number with the same text
   ELSE IF pat.p = "leaf" /\ pat.t = "str" /\ tr.t \in {"bool", "num"} /\ tr.s = pat.s THEN <<[w |-> "as-implemented:sen-bare-literal", d |-> d]>>
   ELSE IF pat.p = "leaf" /\ "asarr" \in DOMAIN pat /\ Match(pat.asarr, tr) THEN <<[w |-> "as-implemented:bytes-as-array", d |-> d]>>
+  ELSE IF pat.p = "leaf" /\ "sneg" \in DOMAIN pat /\ tr.t = pat.t /\ tr.s = pat.sneg THEN <<[w |-> "as-implemented:uint64-as-int64", d |-> d]>>
   ELSE IF pat.p = "leaf" /\ "s64" \in DOMAIN pat /\ tr.t = "num" /\ tr.s = pat.s64 THEN <<[w |-> "as-implemented:float32-widened", d |-> d]>>
   ELSE IF pat.p \in {"leaf", "nilarr", "nilobj"} THEN <<[w |-> IF pat.p = "leaf" /\ tr.t = pat.t THEN "value" ELSE <<"type", tr.t>>, d |-> d]>>
   ELSE IF pat.p = "arr" THEN (IF tr.t # "arr" THEN <<[w |-> <<"type", tr.t>>, d |-> d]>>
